@@ -23,6 +23,14 @@ inside tolerance 0: it differs from the true total by a non-zero multiple of 2^b
 
 Every case is run twice: on the harness built with overflow checks (dev profile) and without (release profile); a change
 that narrows an accumulator panics in the first and returns a wrapped value in the second.
+
+The same holds for the NUMBER of rows: columns of 300 .. 700 (thorough: .. 5000) rows and one of 70 000 rows put counts,
+percentile ranks and totals beyond what a u8 / u16 counter or index holds (count / not under the four iterator shapes,
+percentile at every p of PS, mean).
+
+Program level (`range_programs`): the rule shapes of gen/c17_prog.py except those using `sum`, over aggregated relations
+whose i32 columns hold values at / near i32::MIN and i32::MAX under small keys (the generated programs are compiled with
+overflow checks; a panic inside an aggregator takes the whole `run()` down).
 """
 import hashlib
 import os
@@ -38,6 +46,7 @@ F32_INT = 2 ** 24                                                       # intege
 PS = [(0, 1), (50, 1), (100, 1), (25, 2), (99, 1), (1, 4)]
 COQ_TY = {t: t for t in TYPES}
 BUILDS = ("debug", "release")
+VERY_LONG = 70000       # more rows than a u16 counts
 
 
 def tmin(t):
@@ -146,12 +155,13 @@ def gen_cases(tier, seed):
         for i, (fam, l) in enumerate(lists):
             add("min", t, fam, l)
             add("max", t, fam, l)
-            for p in (PS[:3] if fam == "edge-exhaustive" and len(l) == 2 and i % 4 == 0 else [PS[i % len(PS)]]):
+            # long columns: every p (ranks beyond 255 / 65535 must not be narrowed either)
+            for p in (PS if fam.startswith("long-moderate") else PS[:3] if fam == "edge-exhaustive" and len(l) == 2 and i % 4 == 0 else [PS[i % len(PS)]]):
                 add("percentile", t, fam, l, p=p)
             pre = sum_precondition(t, l)
             if pre or i % 4 == 0:       # a share of the columns outside the precondition: model of the code only
                 add("sum", t, fam, l, pre=pre)
-            if len(l) <= 2 and i % 5 == 0:
+            if (len(l) <= 2 and i % 5 == 0) or fam.startswith("long-moderate"):
                 for kind in ("exact", "filter", "chain", "flat"):
                     add("count", t, fam, l, kind=kind)
                     add("not", t, fam, l, kind=kind)
@@ -160,6 +170,15 @@ def gen_cases(tier, seed):
     for t in MEAN_TYPES:
         for fam, l in value_lists(rng, t, tier):
             add("mean", t, fam, l)
+    # one column with more rows than a u16 counts (cardinality, ranks, and a total beyond any narrowed counter / accumulator);
+    # small values, because the model side parses the literal
+    l = [draw(rng, "u8", "moderate") for _ in range(VERY_LONG)]
+    add("mean", "u8", "very-long", l)
+    add("percentile", "u8", "very-long", l, p=(99, 1))
+    add("percentile", "u8", "very-long", l, p=(100, 1))
+    for kind in ("exact", "filter", "chain", "flat"):
+        add("count", "u8", "very-long", l, kind=kind)
+        add("not", "u8", "very-long", l, kind=kind)
     for c in cases:
         assert all(in_type(c["ty"], v) for v in c["vals"]), c
         if c["name"] == "mean":
@@ -181,13 +200,20 @@ def spec(c):
     raise ValueError(n)
 
 
+def zlist(xs, block=1000):
+    """a Z list literal; long lists as a concatenation of blocks (one 70 000 element literal overflows coqc's stack)"""
+    if len(xs) <= 2 * block:
+        return lib.zlist(xs)
+    return "(" + " ++ ".join(lib.zlist(xs[i:i + block]) for i in range(0, len(xs), block)) + ")"
+
+
 def coq_expr(c):
     """model expression of the typed aggregators that differ from the unbounded ones; None = use Agg/AggModel.v as is"""
     if c["name"] == "sum" and c["ty"] in TYPES:
         f = "agg_sum_checked" if c.get("build", "debug") == "debug" else "agg_sum_wrapped"
-        return "%s %s %s" % (f, COQ_TY[c["ty"]], lib.zlist(c["vals"]))
+        return "%s %s %s" % (f, COQ_TY[c["ty"]], zlist(c["vals"]))
     if c["name"] == "mean":
-        return "agg_mean_f64 %s" % lib.zlist(c["vals"])
+        return "agg_mean_f64 %s" % zlist(c["vals"])
     return None
 
 
